@@ -48,6 +48,7 @@ type seqExec struct {
 	gcCancelAt, gcDataWrites       int          // C03: cancel placed before the n-th relocation write of the current pass
 	gcBucket                       int
 	gcCancelled                    bool
+	gcTraffic                      []Op // C13 T4: operations to be placed inside the current pass
 	gcHold                         func() bool  // C07: the main client stays parked (a shutdown is in progress)
 	nontrivial                     *bool
 	noFinalRestart                 bool
@@ -347,6 +348,21 @@ func (x *seqExec) onFS(g *Gen, ev *simrt.FSEvent) {
 	if ev.Kind == simrt.FSWrite && strings.HasSuffix(ev.Path, ".data") {
 		x.dataEvents++
 		x.checkRouting(ev)
+	}
+	if x.inGC && ev.Tag == "gc" && len(x.gcTraffic) > 0 && x.plan.Prop == "C13" {
+		// C13 template T4: client operations (and a hint-dumper tick) placed at the first disk
+		// mutation of the pass, i.e. after it has begun; the pass waits meanwhile
+		ops := x.gcTraffic
+		x.gcTraffic = nil
+		save := x.inflight
+		for _, t := range ops {
+			x.exec(t)
+			if x.viol != nil {
+				break
+			}
+		}
+		x.inflight = save
+		x.out.probe("c13-ops-placed-inside-pass")
 	}
 	if x.inGC && ev.Tag == "gc" {
 		x.gcEvents = append(x.gcEvents, gcEvent{ev.Kind, ev.Path, ev.Off, len(ev.Data)})
@@ -1069,6 +1085,10 @@ func (x *seqExec) doGC(op Op) {
 	x.inGC = true
 	x.gcEvents = nil
 	x.gcCancelAt, x.gcDataWrites, x.gcBucket, x.gcCancelled = op.CancelAt, 0, b, false
+	x.gcTraffic = nil
+	if x.plan.Prop == "C13" {
+		x.gcTraffic = op.Traffic
+	}
 	if x.gcHook != nil {
 		x.gcHook("before", op, 0, 0)
 	}
